@@ -2,6 +2,7 @@ SPECIFICATION MCSpecInv
 CONSTANTS
   Versions = {1, 2}
   Handles = {1, 2, 3}
+  Closures = {1, 2}
   MaxMods = 2
   MaxGens = 2
   MaxCnt = 3
